@@ -15,6 +15,8 @@
 //   key x        hex of px.ToKey(x)                                                     → "x<hex>" | "reported INVALID_HASH_KEY"
 //   get H k      H.Get(k)                                                               → "some <value>" | "none"
 //   unique xs    Array.Unique                                                           → "(a v*)"
+//   @teq s t / @teq3 s t u   implementation only: the same laws on types given as *type expressions* (hex strings parsed by
+//                c.ParseType), for the type kinds that have no model counterpart (String[n], Struct, Hash, Pattern, Callable …)
 // The property predicate is evaluated directly on the implementation for every op (see `exec`).
 package c07
 
@@ -791,8 +793,96 @@ func exec(c px.Context, op string, args []sx.Sexp) core.Result {
 			return core.Fail(out, class, fail)
 		}
 		return res
+	case "teq", "teq3":
+		return execTypes(c, op, args)
 	}
 	return core.Result{Out: "bad-op", Pred: "FAIL harness-bad-op " + op}
+}
+
+// execTypes: the equivalence and key laws on parsed type expressions (no model counterpart)
+func execTypes(c px.Context, op string, args []sx.Sexp) core.Result {
+	ts := make([]px.Type, len(args))
+	cp := make([]px.Type, len(args))
+	for i, a := range args {
+		src := a.MustStr()
+		if err := safely(func() { ts[i] = c.ParseType(src); cp[i] = c.ParseType(src) }); err != nil {
+			return core.Result{Out: "unparsable", Pred: "n/a"}
+		}
+	}
+	if op == "teq3" {
+		xy, yz, xz := equals(ts[0], ts[1]), equals(ts[1], ts[2]), equals(ts[0], ts[2])
+		out := xy + " " + yz + " " + xz
+		if xy == "t" && yz == "t" && xz != "t" {
+			return core.Fail(out, "types-intransitive", "x=y and y=z but x.Equals(z)="+xz)
+		}
+		return core.Result{Out: out, Pred: "ok", NonTrivial: xy == "t" || yz == "t", Tags: []string{"teq3:" + xy + yz + xz}}
+	}
+	x, y := ts[0], ts[1]
+	xy, yx := equals(x, y), equals(y, x)
+	out := xy + " " + yx
+	res := core.Result{Out: out, Pred: "ok", NonTrivial: true, Tags: []string{"teq:" + xy}}
+	if xy == "fault" || yx == "fault" {
+		return core.Fail(out, "types-equals-fault", "Equals faulted")
+	}
+	if xy != yx {
+		return core.Fail(out, "types-asymmetric", "x.Equals(y)="+xy+" y.Equals(x)="+yx)
+	}
+	for i, v := range []px.Type{x, y} {
+		if r := equals(v, v); r != "t" {
+			return core.Fail(out, "types-irreflexive", "t.Equals(t)="+r+" for "+args[i].MustStr())
+		}
+		if r := equals(v, cp[i]); r != "t" {
+			return core.Fail(out, "types-copy-unequal", "t.Equals(re-parsed t)="+r+" for "+args[i].MustStr())
+		}
+		k1, o1 := keyOf(v)
+		k2, o2 := keyOf(cp[i])
+		if !strings.HasPrefix(o1, "x") || !strings.HasPrefix(o2, "x") {
+			return core.Fail(out, "types-key-fault", "ToKey: "+o1+" for "+args[i].MustStr())
+		}
+		if k1 != k2 {
+			class := "types-copy-key-differs"
+			if _, ok := v.(px.ObjectType); ok {
+				class = "object-type-identity-key" // objectType.ToKey is a per-instance counter
+			}
+			return core.Fail(out, class, "the re-parsed copy of "+args[i].MustStr()+" has another key")
+		}
+	}
+	kx, okx := keyOf(x)
+	ky, _ := keyOf(y)
+	if kx == ky && xy != "t" {
+		return core.Fail(out, "types-key-equal-for-unequal", "same key "+okx+" but Equals="+xy)
+	}
+	if kx != ky && xy == "t" {
+		class := "types-key-differs-for-equal"
+		both := args[0].MustStr() + args[1].MustStr()
+		_, cx := x.(*types.CallableType)
+		_, cy := y.(*types.CallableType)
+		if cx && cy {
+			class = "callable-all-equal" // CallableType.Equals answers true for any two Callable types
+		} else if strings.Contains(both, "Variant") || strings.Contains(both, "Enum") || strings.Contains(both, "Pattern") {
+			class = "type-member-order"
+		}
+		return core.Fail(out, class, "Equals but the keys differ")
+	}
+	return res
+}
+
+// typeExprs: type expressions over the kinds the model does not cover (and a few it does, for cross-kind pairs)
+var typeExprs = []string{
+	"Any", "Undef", "Default", "Unit", "Scalar", "ScalarData", "Data", "RichData", "Numeric", "Boolean", "Boolean[true]", "Boolean[false]",
+	"Integer", "Integer[1,2]", "Float", "Float[1.0,2.0]", "String", "String[1]", "String[1,2]", "String[0,2]", "String['a']", "String['b']",
+	"Enum['a','b']", "Enum['a','b',true]", "Pattern[/a/]", "Pattern[/a/,/b/]", "Pattern[/b/,/a/]", "Pattern[/a/,/a/]", "Pattern['a']", "Regexp", "Regexp[/a/]", "Regexp[/b/]",
+	"Binary", "Timespan", "Timestamp", "SemVer", "SemVerRange", "URI", "Collection", "Collection[1,2]", "Collection[1]",
+	"Array", "Array[String]", "Array[String,1,2]", "Array[1,2]", "Array[0,0]", "Array[Any,0,0]",
+	"Hash", "Hash[String,Integer]", "Hash[String,Integer,1,2]", "Hash[Integer,String]", "Hash[1,2]", "Hash[0,0]",
+	"Tuple", "Tuple[String]", "Tuple[String,Integer]", "Tuple[String,1,2]", "Tuple[String,1,1]", "Tuple[0,0]",
+	"Struct", "Struct[{a=>Integer}]", "Struct[{a=>Integer,b=>String}]", "Struct[{b=>String,a=>Integer}]", "Struct[{Optional[a]=>Integer}]", "Struct[{'a'=>Optional[Integer]}]",
+	"Variant", "Variant[String,Integer]", "Variant[Integer,String]", "Optional", "Optional[String]", "Optional['a']", "Optional[String['a']]",
+	"NotUndef", "NotUndef[String]", "NotUndef['a']", "Type", "Type[String]", "Type[Type[String]]", "Sensitive", "Sensitive[String]",
+	"Iterable", "Iterable[String]", "Iterator", "Iterator[String]", "Callable", "Callable[String]", "Callable[String,Integer]", "Callable[[String],String]",
+	"Callable[0,0]", "Runtime", "Runtime['go','x']", "Runtime['go','y']", "Init", "Init[String]", "Like", "TypeReference['Foo']", "TypeReference['Bar']",
+	"Object", "Object[{name=>'A',attributes=>{a=>Integer}}]", "Object[{name=>'A',attributes=>{a=>String}}]", "Object[{name=>'B',attributes=>{a=>Integer}}]",
+	"TypeSet", "Deferred",
 }
 
 // orderOnlyDup: two elements of the array are types differing only by Variant/Enum member order
@@ -1296,6 +1386,16 @@ func gen(g *core.G) {
 			g.Emit("unique " + av(x, y, x).String())
 			g.Emit("get " + hv(x, iv(1)).String() + " " + y.String())
 		}
+	}
+	// implementation-only: the laws on every ordered pair of the type expressions (kinds without a model counterpart)
+	for _, a := range typeExprs {
+		for _, b := range typeExprs {
+			g.Emit("@teq " + sx.Str(a).Atom + " " + sx.Str(b).Atom)
+		}
+	}
+	for i := 0; i < 4000*g.Scale; i++ {
+		a, b, cc := typeExprs[r.Intn(len(typeExprs))], typeExprs[r.Intn(len(typeExprs))], typeExprs[r.Intn(len(typeExprs))]
+		g.Emit("@teq3 " + sx.Str(a).Atom + " " + sx.Str(b).Atom + " " + sx.Str(cc).Atom)
 	}
 	// 2. structured random cases: related pairs on purpose
 	n := 2500 * g.Scale
